@@ -123,6 +123,45 @@ def PC.label : PC → String
   | .fLoadCurrent => "agg.cflush.load_current" | .fSwapLast => "agg.cflush.swap_last"
   | .fSwapUpdates => "agg.cflush.swap_updates"
 
+/-! ### the K-C10-abs-race window, as a predicate on the schedule
+
+The `absolute` that switches the counter into absolute mode stores `last := v` (`agg.cabs.store_last`) and then
+`current := v` (`agg.cabs.store_current`).  A flush is IN THE WINDOW when its pair (load of `current`, swap of `last`)
+overlaps that pair of stores: the load is taken before the `current` store and the swap after the `last` store.  The
+overlap begins either with the `last` store (a flusher sits between its load and its swap) or with a load (taken while
+the updater sits between the two stores, `mid`); `absRaceStep` flags these steps, `absRaceCount` counts them along a
+schedule (ghost flag `mid` threaded next to `run`; ONE updater thread). -/
+
+/-- the step thread `tid` is about to take (`done` for a thread that does not exist) -/
+def pcOf (s : Sys) (tid : Nat) : PC :=
+  match s.threads[tid]? with
+  | some t => t.pc
+  | none => .done
+
+/-- is some thread between a flush's load of `current` and its swap of `last`? -/
+def flushMid (s : Sys) : Bool := s.threads.any (fun t => t.pc == PC.fSwapLast)
+
+/-- **window step**: the step about to be taken makes a flush overlap the two stores of the mode-switching
+    `absolute` -/
+def absRaceStep (s : Sys) (mid : Bool) (tid : Nat) : Bool :=
+  match pcOf s tid with
+  | .aStoreLast => flushMid s
+  | .fLoadCurrent => mid
+  | _ => false
+
+/-- the ghost flag after the step: set by the `last` store, cleared by the next `current` store -/
+def midAfter (s : Sys) (mid : Bool) (tid : Nat) : Bool :=
+  match pcOf s tid with
+  | .aStoreLast => true
+  | .aStoreCurrent => false
+  | _ => mid
+
+/-- number of window steps along a schedule -/
+def absRaceCount : Sys → Bool → List Nat → Nat
+  | _, _, [] => 0
+  | s, mid, tid :: rest =>
+    (if absRaceStep s mid tid then 1 else 0) + absRaceCount (step s tid) (midAfter s mid tid) rest
+
 /-! ### gauges: `set` = store + updates bump; `flush` = load + swap(updates); every flush sends what it loaded -/
 
 inductive GCall
